@@ -1,4 +1,6 @@
 pub mod c02;
+pub mod c10;
+pub mod c11;
 pub mod c12;
 pub mod c14;
 pub mod c17;
@@ -9,6 +11,8 @@ use crate::Params;
 pub fn run(p: &Params) -> Report {
     match p.property.as_str() {
         "C02" => c02::run(p),
+        "C10" => c10::run(p),
+        "C11" => c11::run(p),
         "C12" => c12::run(p),
         "C14" => c14::run(p),
         "C17" => c17::run(p),
